@@ -61,7 +61,6 @@ class EFLRItem:
 
         self._check_parent(parent)
         self._parent = parent  #: EFLRSet instance this item belongs to
-        self._parent.register_item(self)
 
         #: origin reference value, common for records sharing origin
         self._origin_reference: Union[int, None] = self._validate_origin_reference(origin_reference, allow_none=True)
@@ -73,6 +72,19 @@ class EFLRItem:
             attribute.parent_eflr = self
 
         self.set_attributes(**{k: v for k, v in kwargs.items() if v is not None})
+        self._set_defaults_at_init()
+
+        # the item is registered with its parent only now, when nothing can go wrong any more:
+        # an item whose set-up has failed (e.g. because of an invalid attribute value) must not be left in the set
+        self._parent.register_item(self)
+
+    def _set_defaults_at_init(self) -> None:
+        """Set default values of the attributes which should have a value from the moment the item is created.
+
+        Called at the end of initialisation, just before the item is registered with its parent EFLRSet.
+        """
+
+        pass
 
     @property
     def parent(self) -> "EFLRSet":
@@ -114,10 +126,13 @@ class EFLRItem:
         return v
 
     def _compute_copy_number(self) -> int:
-        """Compute copy number of this ELFRItem, i.e. how many other objects of the same type and name there are."""
+        """Compute copy number of this ELFRItem, i.e. how many other objects of the same type and name there are.
+
+        Note: this is called before the item is registered with its parent, so the item itself is not counted.
+        """
 
         items_with_the_same_name = filter(lambda o: o.name == self.name, self.parent.get_all_eflr_items())
-        return len(list(items_with_the_same_name)) - 1
+        return len(list(items_with_the_same_name))
 
     @classmethod
     def _check_parent(cls, parent: "EFLRSet") -> None:
